@@ -388,6 +388,7 @@ class C12(c05.C05):
         "empty-whitelist",
         "whitelist-rule-sets-layered-over-shared-defaults",
         "accessor-result-scribbled-right-after-a-round-trip",
+        "scribble-while-a-generator-traversal-is-suspended",
         "scribble-with-live-generators",
         "constructor-fed-by-failing-iterable",
     ]
@@ -450,6 +451,26 @@ class C12(c05.C05):
                         st.queue.append({"op": "v_add_uni", "u": rng.choice(us), "v": obj})
                         st.queue.append(dict(src))
                 return {"op": "roundtrip", "proto": rng.randint(0, 5), "loader": rng.choice(["pickle", "dill"])}
+            if cfg["ntasks"] and st.flag and len(st.tasks) < cfg["ntasks"] and rng.random() < 0.06:
+                # a warm answer, a generator traversal started and left
+                # suspended after a few steps, then the client scribbles on
+                # what the same read hands out now
+                r = st.gen.g_neighbors(rng, st.view, st.namer, focus=st.focus[-4:])
+                args = st.gen.trav_args(rng, st.view, focus=[r["v"]] if r else st.focus[-4:])
+                if r is not None and args is not None:
+                    st.stats["probe:scribble-while-a-generator-traversal-is-suspended"] += 1
+                    t = st.namer.new("t")
+                    spawn = {"op": "spawn", "t": t, "fn": rng.choice(["ibft", "ibft", "idft_iterative"])}
+                    spawn.update(args)
+                    st.queue.extend(
+                        [
+                            spawn,
+                            {"op": "step", "t": t, "n": rng.choice([2, 3])},
+                            {"op": "scribble_ret", "src": dict(r), "mut": self._mut(rng, st, LIST_MUTS)},
+                            dict(r),
+                        ]
+                    )
+                    return dict(r)
             if rng.random() < cfg["p_scribble"]:
                 op = self._scribble_op(rng, cfg, st)
                 if op is not None:
